@@ -57,7 +57,7 @@ def toV3 (p : V3 K) : Fin 3 → K := ![p.x, p.y, p.z]
 @[simp] theorem toH_imK (p : Quat K) : (toH p).imK = p.z := rfl
 
 /-- `‖p‖² = 1` -/
-def IsUnit (p : Quat K) : Prop := p.w * p.w + p.x * p.x + p.y * p.y + p.z * p.z = 1
+def UnitQuat (p : Quat K) : Prop := p.w * p.w + p.x * p.x + p.y * p.y + p.z * p.z = 1
 
 /-! ## 4×4 -/
 
@@ -117,14 +117,14 @@ def Rh (p : Quat K) : Matrix (Fin 4) (Fin 4) K :=
      2*(p.x*p.z - p.w*p.y), 2*(p.y*p.z + p.w*p.x), p.w*p.w - p.x*p.x - p.y*p.y + p.z*p.z, 0;
      0, 0, 0, p.w * p.w + p.x * p.x + p.y * p.y + p.z * p.z]
 
-theorem qmat_eq_Rh (p : Quat K) (hp : IsUnit p) : toM4 (Gen.Q.matrix (fld K) p) = Rh p := by
-  unfold IsUnit at hp
+theorem qmat_eq_Rh (p : Quat K) (hp : UnitQuat p) : toM4 (Gen.Q.matrix (fld K) p) = Rh p := by
+  unfold UnitQuat at hp
   ext i j
   fin_cases i <;> fin_cases j <;> simp [toM4, Gen.Q.matrix, ofRows, Rh] <;>
     first | ring1 | linear_combination (-1 : K) * hp
 
-theorem unit_mul (p q : Quat K) (hp : IsUnit p) (hq : IsUnit q) : IsUnit (Gen.Q.mul (fld K) p q) := by
-  unfold IsUnit at *
+theorem unit_mul (p q : Quat K) (hp : UnitQuat p) (hq : UnitQuat q) : UnitQuat (Gen.Q.mul (fld K) p q) := by
+  unfold UnitQuat at *
   simp [Gen.Q.mul]
   linear_combination (q.w * q.w + q.x * q.x + q.y * q.y + q.z * q.z) * hp + hq
 
@@ -134,12 +134,12 @@ theorem Rh_mul (p q : Quat K) : Rh (Gen.Q.mul (fld K) p q) = Rh p * Rh q := by
 
 /-! ## `rotation()`: each branch inverts `matrix()` up to sign when its root is a non-zero square root -/
 
-theorem rot0 (q : Quat K) (hq : IsUnit q) (h2 : (2 : K) ≠ 0) (r : K)
+theorem rot0 (q : Quat K) (hq : UnitQuat q) (h2 : (2 : K) ≠ 0) (r : K)
     (hr : r * r = Gen.M4.rotRadicand0 (fld K) (Gen.Q.matrix (fld K) q)) (h0 : r ≠ 0) :
     Gen.M4.rotBranch0 (fld K) (Gen.Q.matrix (fld K) q) r = q ∨
     Gen.M4.rotBranch0 (fld K) (Gen.Q.matrix (fld K) q) r = Gen.Q.neg (fld K) q := by
   obtain ⟨w, x, y, z⟩ := q
-  unfold IsUnit at hq
+  unfold UnitQuat at hq
   simp only at hq
   simp [Gen.M4.rotRadicand0, Gen.Q.matrix, ofRows] at hr
   have hw : (r - 2 * w) * (r + 2 * w) = 0 := by linear_combination hr - 4 * hq
